@@ -11,7 +11,8 @@ func Spec() *run.Spec {
 			"layouts uniform/clustered/coincident/overlapping/collinear/coplanar/integer lattice/welded grid; ≈12 % of the scenes with special coordinates: scene translated so that a vertex / bounds min / bounds max is exactly 0 on 1–3 axes, " +
 			"zero-extent elements exactly at the world origin (first, last, inside, several; ±0) and at {-1,0,1}³, queried at the origin, with r = 0.5 and by axis rays through the origin; depth 0…6 or automatic; every public constructor path) " +
 			"with 20 query positions (ClosestPoint, ElementsContainingPoint, ElementsWithinRange) and 20 rays (ElementsIntersectingRay, TraverseIntersectingRay, " +
-			"nearest hit through the narrowing traversal), resp. one triangle mesh with 20 rays through BVHNode/HitList/rendering.Mesh/rendering.Tree. " +
+			"nearest hit through the narrowing traversal), resp. one triangle mesh with 20 rays through BVHNode/HitList/rendering.Mesh/rendering.Tree, the incoming hit record being a workload dimension " +
+			"(fresh per call; one record reused over all rays of the case, in random order or nearest hit first; literal with Distance 0; bare &HitRecord{} where the entry point supports it; Distance pre-set tiny / half the true hit / huge / NaN / +Inf / negative): the answer must not depend on it. " +
 			"Every answer is compared with a brute-force scan using the harness's own closest-point, slab and Möller–Trumbore code. " +
 			"Non-trivial (octree): some leaf provably holds ≥ 2 elements (n ≥ 2 and depth 0, or n > 8^depth, or two identical elements) and at least one " +
 			"ClosestPoint answer is not element 0; (bvh): ≥ 2 triangles and some ray's nearest definite hit is not triangle 0. " +
@@ -26,6 +27,7 @@ func Spec() *run.Spec {
 				"reported when it misses the bounds grown by 2e-10 (polyform grows boxes by 1e-10); in between is free",
 			"polyform's triangle hit conventions (|det|<1e-6 counts as parallel; a hit needs distance ≥ min+1e-6) are element semantics, reproduced by the reference with error bars; " +
 				"the expectation is the strict nearest crossing in [min+1e-6, max]; an answer that is explainable only by comparing the limit with distance-min (defect repaired by 51b4c34) is reported as nearest-hit-min-window",
+			"a bare &HitRecord{} (nil maps) is only handed to HitList.Hit and rendering.Tree.Hit: BVHNode.Hit and rendering.Mesh.Hit write Float3Data[\"barycentric\"] into the caller's record and panic on a nil map on the unchanged tree (reported, not flagged)",
 			"empty element sets are out of reach (constructors return nil)",
 		},
 		MinNontrivial: map[string]int{"quick": 500, "thorough": 1500},
@@ -37,6 +39,7 @@ func Spec() *run.Spec {
 			"element_kinds": 6, "layouts": 9, "constructors": 5, "depths": 8, "point_cloud_index_patterns": 6, "point_clouds_with_more_points_than_vertices": 100,
 			"scenes_with_special_coordinates": 500, "scenes_with_zero_extent_element_at_world_origin": 150,
 			"scenes_with_zero_extent_element_at_world_origin_as_element_0": 80, "special_coordinate_ingredients": 12,
+			"bvh_record_kinds": 11, "bvh_record_modes": 4, "bvh_calls_with_record_holding_a_nearer_earlier_hit": 5000,
 		},
 		Phases: []run.Phase{
 			{Name: "octree", Cases: func(tier string) int {
